@@ -18,7 +18,7 @@ ID = "C05"
 TECHNIQUE = "runtime monitoring: compiled prior kernels observed over exhaustively enumerated genotype spaces; independent (Dirichlet-)multinomial oracle in lgamma and exact-Fraction form"
 LEVEL = "exploration"
 LEVEL_TEXT = (
-    "Exploration with exhaustive cells: for every (ploidy 1-8, alleles 1-8) space (quick: <=1716 genotypes per space) "
+    "Exploration with exhaustive cells: for every (ploidy 1-12, 16, 20; alleles 1-8) space with <=1716 (thorough 6435) genotypes "
     "and a fixed grid of inbreeding values and frequency vectors (flat, random, zero-containing, extreme skew) every "
     "genotype's prior returned by the real kernels is observed: sums to one, equals the independent pmf (float and "
     "exact rational), the single-allele conditional equals the exact conditional of the genotype prior for every "
@@ -39,7 +39,7 @@ F_GRID = [0.0, 1e-3, 0.1, 0.5, 0.9, 0.999]
 def cells(tier):
     lim = 1716 if tier == "quick" else 6435
     out = []
-    for ploidy in range(1, 9):
+    for ploidy in list(range(1, 13)) + [16, 20]:
         for na in range(1, 9):
             n = math.comb(na + ploidy - 1, ploidy)
             if n <= lim:
@@ -143,7 +143,7 @@ def run_cell(ploidy, na, rng, col, K, spec_name, tier="quick"):
                         col.violation("prior-differs-from-dirichlet-multinomial", "exact rational prior of %s = %s (%.12g) but kernel gives %.12g" % (gs[i], ex, float(ex), got),
                                       {"kind": "genotype", "genotype": list(gs[i]), **cell})
             # single-allele conditional == exact conditional of the genotype prior
-            if ploidy <= 6 and na <= 6:
+            if (ploidy <= 6 and na <= 6) or len(gs) <= 500:
                 lookup = {g: lps[i] for i, g in enumerate(gs)}
                 rests = M.genotypes_vcf_order(na, ploidy - 1) if ploidy > 1 else [()]
                 nb = 0
@@ -179,7 +179,7 @@ def run_cell(ploidy, na, rng, col, K, spec_name, tier="quick"):
 def run_assemble(rng, col, K, n_cases):
     """assemble prior of a dosage == call prior with flat frequencies over all haplotypes."""
     for c in range(n_cases):
-        ploidy = int(rng.integers(1, 9))
+        ploidy = int(rng.integers(1, 9)) if rng.random() < 0.7 else int(rng.integers(9, 21))
         n_pos = int(rng.integers(1, 5))
         n_alleles = rng.integers(2, 5, size=n_pos)
         u = int(np.prod(n_alleles))
@@ -202,7 +202,9 @@ def run_assemble(rng, col, K, n_cases):
     for n_alleles in ([2], [3], [2, 2], [2, 3], [2, 2, 2]):
         allh = gen.all_haplotypes(n_alleles)
         u = len(allh)
-        for ploidy in (1, 2, 3, 4):
+        for ploidy in (1, 2, 3, 4, 9, 12):
+            if math.comb(u + ploidy - 1, ploidy) > 3000:
+                continue
             for F in (0.0, 0.1, 0.9):
                 tot = []
                 for ms in itertools.combinations_with_replacement(range(u), ploidy):
